@@ -11,7 +11,7 @@ trap 'git -C /repo worktree remove --force "$d" 2>/dev/null; rm -rf "$d"' EXIT
 ( cd "$d" && make -j8 >/dev/null 2>&1 ) || { echo "clean tree does not build"; exit 2; }
 ( cd "$S" && timeout 1200 bash ./demo.sh "$d" >/tmp/seedconfirm.$$.clean 2>&1 ); c=$?
 echo "demo on clean tree: exit=$c ($([ $c -eq 0 ] && echo passes || echo FAILS))"
-git -C "$d" apply "$S/patch.diff" || { echo "patch does not apply"; exit 2; }
+git -C "$d" apply "$S/patch.diff" 2>/dev/null || ( cd "$d" && patch -p1 --fuzz=3 -s < "$S/patch.diff" >/dev/null 2>&1 ) || { echo "patch does not apply"; exit 2; }
 ( cd "$d" && make -j8 >/tmp/seedconfirm.$$.make 2>&1 ) && echo "with change: builds" || { echo "with change: DOES NOT BUILD"; tail -5 /tmp/seedconfirm.$$.make; exit 1; }
 b=$("$V/tools/run_baseline.sh" "$d" 2>&1 | grep '^baseline' | cut -c1-80); echo "$b"
 rm -f "$d"/tests/output/*.sock.out
